@@ -163,7 +163,127 @@ func TestVerifReplayC18(t *testing.T) {
 			}
 		}
 	}
-	fmt.Println("REPLAY-NOT-REPRODUCED bounded search: 5 messages x 6 chunkings, 3 cancellation points, 15 malformed frames x 3 chunkings")
+	if msg := verifCalls(); msg != "" {
+		fmt.Println("REPLAY-CONFIRMED " + msg)
+		return
+	}
+	fmt.Println("REPLAY-NOT-REPRODUCED bounded search: 5 messages x 6 chunkings, 3 cancellation points, 15 malformed frames x 3 chunkings, 4 call / reply schedules")
+}
+
+// verifScript is a Stream whose peer is scripted: what it does when the k-th call is written decides the schedule.
+type verifScript struct {
+	in      chan Message // messages the peer sends
+	reads   chan struct{} // one token per Read that run starts
+	onWrite func(s *verifScript, n int, msg Message) error
+	writes  int
+}
+
+func (s *verifScript) Read(ctx context.Context) (Message, int64, error) {
+	select {
+	case s.reads <- struct{}{}:
+	default:
+	}
+	select {
+	case m, ok := <-s.in:
+		if !ok {
+			return nil, 0, io.EOF
+		}
+		return m, 0, nil
+	case <-ctx.Done():
+		return nil, 0, ctx.Err()
+	}
+}
+func (s *verifScript) Write(ctx context.Context, msg Message) (int64, error) {
+	s.writes++
+	return 0, s.onWrite(s, s.writes, msg)
+}
+func (s *verifScript) Close() error { return nil }
+
+// the peer answers call id with a result naming that id
+func verifReply(id ID) Message {
+	r, _ := NewResponse(id, "result-for-"+fmt.Sprint(id), nil)
+	return r
+}
+
+// waitDispatched: run has taken the message and come back for the next one
+func (s *verifScript) waitDispatched() bool {
+	for i := 0; i < 2; i++ {
+		select {
+		case <-s.reads:
+		case <-time.After(2 * time.Second):
+			return false
+		}
+	}
+	return true
+}
+
+func verifCalls() string {
+	type schedule struct {
+		name    string
+		onWrite func(s *verifScript, n int, msg Message) error
+	}
+	idOf := func(msg Message) ID { return msg.(*Call).ID() }
+	schedules := []schedule{
+		{"replies in order", func(s *verifScript, n int, msg Message) error { s.in <- verifReply(idOf(msg)); return nil }},
+		{"the reply to call 1 arrives while its write fails (the call gives up with its reply parked), then call 2 is answered normally", func(s *verifScript, n int, msg Message) error {
+			s.in <- verifReply(idOf(msg))
+			if n == 1 {
+				for len(s.reads) > 0 {
+					<-s.reads
+				}
+				s.waitDispatched()
+				return errors.New("connection reset after the request left")
+			}
+			return nil
+		}},
+		{"a reply for an id nobody waits for precedes the real reply", func(s *verifScript, n int, msg Message) error {
+			s.in <- verifReply(NewNumberID(4242))
+			s.in <- verifReply(idOf(msg))
+			return nil
+		}},
+		{"a notification and a stale reply to call 1 arrive before the reply to call 2", func(s *verifScript, n int, msg Message) error {
+			if n == 2 {
+				nt, _ := NewNotification("note", nil)
+				s.in <- nt
+				s.in <- verifReply(NewNumberID(1))
+			}
+			s.in <- verifReply(idOf(msg))
+			return nil
+		}},
+	}
+	for _, sc := range schedules {
+		s := &verifScript{in: make(chan Message, 8), reads: make(chan struct{}, 8), onWrite: sc.onWrite}
+		ctx, cancel := context.WithCancel(context.Background())
+		c := NewConn(s)
+		c.Go(ctx, func(ctx context.Context, reply Replier, req Request) error { return nil })
+		var log string
+		for k := 1; k <= 3; k++ {
+			type res struct {
+				id  ID
+				got string
+				err error
+			}
+			done := make(chan res, 1)
+			go func() {
+				var got string
+				id, err := c.Call(ctx, "m", nil, &got)
+				done <- res{id, got, err}
+			}()
+			select {
+			case r := <-done:
+				log += fmt.Sprintf(" call %d: id=%v result=%q err=%v;", k, r.id, r.got, r.err)
+				if r.err == nil && r.got != "result-for-"+fmt.Sprint(r.id) {
+					cancel()
+					return fmt.Sprintf("schedule %q: call %d (id %v) returned %q - the response of another call;%s", sc.name, k, r.id, r.got, log)
+				}
+			case <-time.After(3 * time.Second):
+				cancel()
+				return fmt.Sprintf("schedule %q: call %d never returns although the peer answered it (the read loop is stuck);%s", sc.name, k, log)
+			}
+		}
+		cancel()
+	}
+	return ""
 }
 `
 
